@@ -245,6 +245,13 @@ def solve_core(s, t, debug=False):
             print(*args)
 
     var_names = [v.name for v in term.get_vars(As + [C])]
+    # Z3 constants are identified by name: a name used at two different types
+    # (possibly in different assumptions) cannot be translated faithfully.
+    var_types = dict()
+    for v in term.get_vars(As + [C]):
+        if var_types.setdefault(v.name, v.T) != v.T:
+            print_debug("variable %s is used at types %s and %s" % (v.name, var_types[v.name], v.T))
+            return s
     assms = dict()
     to_real = dict()
     for A in As:
